@@ -387,7 +387,7 @@ func gen(t *rapid.T) Case {
 	g := &g2{t: t, feats: map[string]bool{}}
 	doc := M{"swagger": "2.0", "info": M{"title": "T", "version": "1"}}
 	if g.chance(2, "host") {
-		doc["host"] = "api.example.com"
+		doc["host"] = rapid.SampledFrom([]string{"api.example.com", "api.example.com", "api.example.com:8443", "localhost:8080", "[::1]:9000"}).Draw(t, "hostv")
 		if g.chance(2, "basepath") {
 			doc["basePath"] = "/v1"
 		}
